@@ -260,7 +260,11 @@ static void gen_seq(vf::Ctx& c, Seq& q, int stratum)
 			it.arr.resize((size_t)len);
 			for (int k = 0; k < len; k++) it.arr[k] = gen_bits(r, it.elem);
 		}
-		else if (w < 85) { it.kind = K_STR + (int)r.below(3); it.s = gen_text(r); }
+		else if (w < 85) {
+			it.kind = K_STR + (int)r.below(3); it.s = gen_text(r);
+			// a String carries its length: binary content with zero bytes is a string value too (not for the const char* form)
+			if (it.kind != K_CSTR && it.s.size() && r.chance(0.2)) { int k = r.range(1, 3); for (int j = 0; j < k; j++) it.s[r.below((uint32_t)it.s.size())] = 0; }
+		}
 		else { it.kind = K_END; it.ord = (int)r.below(NORD); }
 		if (it.kind == K_END) cur = it.ord;
 		if (is_trigger(it, cur)) triggers++;
@@ -525,6 +529,20 @@ static std::string read_lstr(StreamBufferReader& r)   // the reader class has no
 static std::string read_lstr(File& f) { String x; f >> x; return std::string(*x, (size_t)x.length()); }
 static std::string read_lstr(Socket& s) { String x; s >> x; return std::string(*x, (size_t)x.length()); }
 
+static std::string read_text(StreamBufferReader& r, bool lp, const std::string& want) { return lp ? read_lstr(r) : raw_read(r, (int)want.size()); }
+static std::string read_text(File& f, bool lp, const std::string& want) { return lp ? read_lstr(f) : raw_read(f, (int)want.size()); }
+static std::string read_text(Socket& s, bool lp, const std::string& want)
+{
+	// Socket::readString() returns text (it ends at the first zero byte): binary string content is read back as plain bytes
+	if (want.find('\0') == std::string::npos) return lp ? read_lstr(s) : raw_read(s, (int)want.size());
+	int n = (int)want.size();
+	if (lp) { n = -1; s >> n; if (n < 0 || n > (1 << 20)) return std::string("<bad length>"); }
+	std::string b((size_t)n, '\xA5');
+	int k = n ? s.read(&b[0], n) : 0;
+	b.resize((size_t)(k < 0 ? 0 : k));
+	return b;
+}
+
 // the object read into sits between guard bytes: an extraction that stores more than sizeof(T) bytes is named as such
 // (overruns longer than the guard leave the enclosing object and are ASan's business)
 enum { GUARD = 16 };
@@ -591,7 +609,7 @@ static void read_all(R& r, const Seq& q, Mismatch& mm)
 			}
 		}
 		else {
-			got = it.kind == K_LSTR ? read_lstr(r) : raw_read(r, (int)it.s.size());
+			got = read_text(r, it.kind == K_LSTR, it.s);
 			if (got != it.s)
 				mm.set(vf::fmt("read.%s.%s.value", KNAME[it.kind], on), vf::fmt("item %d (%s[%d], order %s): read back %d bytes '%s', want '%s'", (int)i, KNAME[it.kind],
 				                                                         (int)it.s.size(), on, (int)got.size(), vf::vis(got, 80).c_str(), vf::vis(it.s, 80).c_str()));
